@@ -119,7 +119,9 @@ ExprVal(form, A, B) ==
      [] form = "sum"  -> Bcast(Agg("SUM", Read(A)))                  \* L=SUM{A}
      [] form = "nest" -> F2("SUBSTRACTER", F2("MULTIPLIER", Read(A), Read(B)), FS("SCALAR_ADDER", Read(A), 1))  \* L=A*B-(A+1)
      [] form = "lit"  -> Bcast(4)                                    \* L=4
-AllForms == {"copy", "add", "mul2", "rsub", "int", "sum", "nest", "lit"}
+     \* an aggregate evaluated AFTER a parenthesised sub-expression (its scratch column comes after the sub-expression's)
+     [] form = "aggr" -> F2("ADDER", FS("SCALAR_MULTIPLIER", F2("ADDER", Read(A), Read(B)), 2), Bcast(Agg("MAX", Read(A))))   \* L=2*(A+B)+MAX{A}
+AllForms == {"copy", "add", "mul2", "rsub", "int", "sum", "nest", "lit", "aggr"}
 ASSUME Ops1 \subseteq AllOps1 /\ Ops2 \subseteq AllOps2 /\ OpsS \subseteq AllOpsS /\ OpsA \subseteq AllOpsA /\ Forms \subseteq AllForms
 
 Scalars == {0, 7}
